@@ -26,6 +26,15 @@ def field_width(prog, field):
     raise AnalysisBroken("field %s not found in echs_task_s" % field)
 
 
+def field_unsigned(prog, field):
+    rec = prog.record("echs_task_s")
+    for f in rec["fields"]:
+        if f["n"] == field:
+            t = (f.get("t") or "")
+            return f.get("s") is False or t.startswith("unsigned") or t.startswith("uint") or t in ("_Bool", "bool")
+    return None
+
+
 def parser_sites(prog, field):
     """[(function, block, elem, assignment-node)] where the parser stores the field from text."""
     out = []
@@ -188,6 +197,14 @@ def r05_4(prog, rep, which=("max_simul", "umsk"), rid="R05.4"):
         width = field_width(prog, field)
         mask = (1 << width) - 1
         unset = mask  # 0 - 1 in a width-bit field
+        rec_ = [f_ for f_ in prog.record("echs_task_s")["fields"] if f_["n"] == field][0]
+        if field_unsigned(prog, field):
+            rep.ok(rid, "echs_task_s/%s-unsigned" % field, "src/task.h:%s" % rec_.get("line"), "%s is an unsigned %d-bit field: the stored codes 0..%d read back as written" % (field, width, mask),
+                   nontrivial=False)
+        else:
+            rep.fail(rid, "echs_task_s/%s-unsigned" % field, "src/task.h:%s" % rec_.get("line"),
+                     "%s is a signed %d-bit field (%s): the codes %d..%d the parser stores read back negative, so a limit of %d or more compares as "
+                     "`no limit` in the daemon and is not written back by the serialiser" % (field, width, rec_.get("t"), 1 << (width - 1), mask, (1 << (width - 1)) - 1))
         ps = parser_sites(prog, field)
         if not ps:
             raise AnalysisBroken("no parser store for %s" % field)
